@@ -276,6 +276,11 @@ def run(ctx):
     for b, t in helper_calls:
         e = zrr.call_expr(t, b)
         recs = A.path_str(e[2][2])
+        # the records handed out are owned by the name that was asked for (also when a wildcard is expanded), and the
+        # delegation point is this node
+        ctx.check(A.peel(e[2][0]) == ("param", 2) and A.peel(e[2][1]) == ("param", 3) and (A.path_str(e[2][3]) == "param1.nsdname" or recs != "param1.this"), "C02.1",
+                  "helper-call:owner@%s" % ("this" if recs == "param1.this" else "wildcard"), "zone_result_helper(query name, qtype, records, this node's name, ..)",
+                  "zone_result_helper is called with name=%s qtype=%s node=%s" % (A.show(e[2][0])[:40], A.show(e[2][1])[:30], A.show(e[2][3])[:40]), zr.loc(b))
         if recs == "param1.this":
             okx, _ = zc.guarded(b, lambda fc: fc[0] == "call" and fc[1].endswith("is_empty") and fc[3] is True and A.peel(fc[2][0]) == ("param", 4))
             ctx.check(okx and A.path_str(e[2][3]) == "param1.nsdname", "C02.4", "descent:exact-match", "own records used only when no label remains",
